@@ -354,7 +354,8 @@ func Execute(spec *Spec, opt Options) *Result {
 	r := &runner{spec: spec, prop: spec.Property, docs: map[string]*docInst{}, exprs: map[string]*exprInst{},
 		refs: map[string]string{}, refStep: map[string]int{}}
 	res := &Result{Seed: spec.Seed, Property: spec.Property, Kind: spec.Kind, Tasks: len(spec.Tasks),
-		Probes: map[string]int{}, Faults: map[string]int{}, Foreign: map[string]int{}, Families: map[string]int{}}
+		Probes: map[string]int{}, Faults: map[string]int{}, Foreign: map[string]int{}, Families: map[string]int{},
+		NodeTypes: map[string]int{}, Funcs: map[string]int{}}
 
 	for _, d := range spec.Docs {
 		r.docs[d.ID] = buildDoc(d)
@@ -374,6 +375,8 @@ func Execute(spec *Spec, opt Options) *Result {
 	usesRegistry := spec.Kind == "reg-compile" || spec.Kind == "expr-registry"
 
 	// ---- reference phase (controller alone) ----
+	engine.Ref.NodeTypes, engine.Ref.Funcs = res.NodeTypes, res.Funcs
+	defer func() { engine.Ref.NodeTypes, engine.Ref.Funcs = nil, nil }()
 	if !usesRegistry && spec.Kind != "clock" { // clock values have no time-independent reference
 		type tmeta struct {
 			text string
